@@ -223,6 +223,10 @@ func c05Alphabet(s *sessSys) []sessReq {
 					add("mod-ufar", sessReq{sReq: sReq{Kind: kMod, Conn: c, UpdateFAR: []sFAR{{ID: 2, Action: ActionForward, HasFwd: true, HasDst: true, Dst: ie.DstInterfaceAccess, OHCIP: f.OHCIP, OHCTEID: 0x7001}}}, Sess: x.Idx})
 				}
 				add("mod-rejected-remove-unknown", sessReq{sReq: sReq{Kind: kMod, Conn: c, RemovePDR: []uint16{99}}, Sess: x.Idx})
+				if p1 := x.pdr(1); p1 != nil && p1.ChoseTEID {
+					add("mod-remove-choose-pdr", sessReq{sReq: sReq{Kind: kMod, Conn: c, RemovePDR: []uint16{1}}, Sess: x.Idx})
+					add("mod-rejected-remove-choose-pdr-then-unknown-far", sessReq{sReq: sReq{Kind: kMod, Conn: c, RemovePDR: []uint16{1}, RemoveFAR: []uint32{99}}, Sess: x.Idx})
+				}
 				// whatever a modification acquired, or left referenced, must be reclaimed by the ending as well
 				if f := x.far(2); f != nil && f.Action == ActionForward && f.OHCIP != "" {
 					// idle transition as some control planes send it: buffer, tunnel parameters still carried
